@@ -45,8 +45,8 @@ class ProcessStack(Contract):
         w = a[0]
         g = ex.ghost
         if ex.decide(ex.fresh("a_callback_fails", B)):
-            # arbitrary unfinished state
-            w.fields["stack"] = [(True, z3.Const("leftover_node", Node))]
+            # arbitrary unfinished state: entries may be left on the work list, or none (the failing node was the last one: the root)
+            w.fields["stack"] = [(True, z3.Const("leftover_node", Node))] if ex.decide(ex.fresh("work_left", B)) else []
             w.fields["memoization"].items.append([z3.Const("partial_key", Node), z3.Const("partial_result", Res)])
             g["failed"] = True
             raise PyRaise(ExcVal("PysmtTypeError", ("callback failed",)))
@@ -64,6 +64,10 @@ class WalkerVariant(Variant):
     def __init__(self, world, method, nkids=2, memo_pattern=0, one_shot=False, none_results=False):
         self.world, self.method, self.nkids, self.pat, self.one_shot = world, method, nkids, memo_pattern, one_shot
         self.none_results = none_results          # the memoised results of the children are None (e.g. AtomsOracle on terms)
+        if one_shot and method in ("walk", "iter_walk"):
+            # the substituter is a one-time-table walker shared by the environment: that the table is empty when a substitution
+            # starts - whatever the previous one did, fail included - is a pre-condition of the substitution proof (C05)
+            self.prop_ids = ("C14", "C15", "C20", "C05")
         self.qualname = DAG + "." + method
         self.name = "walker:%s[%d children/memo %s%s%s]" % (method, nkids, format(memo_pattern, "0%db" % (nkids + 1)),
                                                            "/one-time" if one_shot else "", "/results-None" if none_results else "")
@@ -178,12 +182,12 @@ class WalkerVariant(Variant):
             failed = ex.ghost.get("failed", False)
             if kind == "raise":
                 goals.append(("error-only-when-a-callback-failed", z3.BoolVal(bool(failed))))
-                goals.append(("C15:no-unfinished-work-left", z3.BoolVal(len(stack) == 0)))
+                goals.append(("failure:no-unfinished-work-left", z3.BoolVal(len(stack) == 0)))
                 if self.one_shot:
-                    goals.append(("C15:one-time-table-cleared-on-failure", z3.BoolVal(len(memo) == 0)))
+                    goals.append(("failure:one-time-table-cleared", z3.BoolVal(len(memo) == 0)))
                 else:
                     # persistent table: the entries that were there are unchanged (entries added are results of finished nodes)
-                    goals.append(("C15:earlier-entries-unchanged", self.same_memo(memo[:len(self.memo0)], self.memo0)))
+                    goals.append(("failure:earlier-entries-unchanged", self.same_memo(memo[:len(self.memo0)], self.memo0)))
                 return goals
             goals.append(("work-list-empty", z3.BoolVal(len(stack) == 0)))
             if m == "walk" and self.one_shot and not (self.pat >> k & 1):
